@@ -616,6 +616,20 @@ def report(col, viols):
         col.violation(v["clause"], v["function"], v["input"], v["observed"], v["expected"], v["note"])
 
 
+def deep_nesting(col):
+    """'for every string ... whatever the URL embeds': nesting deeper than the interpreter allows nested calls (default recursion limit, no tripwire)"""
+    for n in (50, 1200, 5000):
+        for x, innermost in (("http://a.com/?u=" * n + "http://b.com/x", "http://b.com/x"), ("http://" + "bc.marfeel.com/" * n + "x", "https://x"),
+                             ("http://a.com/r?next=" + "%2Fr%3Fnext%3D" * 0 + "/p" * n, None)):
+            col.count("terminates")
+            r = call(infer_redirection, x)
+            inp = {"deep_nesting": n, "url": x[:60] + "...(%d nested levels, %d characters)" % (n, len(x)), "recursive": True}
+            if r[0] != "ok" or not isinstance(r[1], str):
+                col.violation("terminates", "ural.infer_redirection.infer_redirection", inp, list(r)[:2], "a string, after a bounded number of steps")
+            elif innermost is not None and r[1] != innermost:
+                col.violation("fixed-point", "ural.infer_redirection.infer_redirection", inp, r[1][:80], innermost)
+
+
 def main():
     a = args("C15")
     col = Collector("C15", a.tier, a.seed)
@@ -624,6 +638,11 @@ def main():
     if a.replay:
         rp = json.load(open(a.replay))
         inp = rp["input"]
+        if isinstance(inp, dict) and "deep_nesting" in inp:
+            deep_nesting(col)    # the witness is too long to be stored: the (deterministic) family is built again
+            col.rule = "replay of the deep-nesting family"
+            col.dump(a.out)
+            return
         url = inp["url"] if isinstance(inp, dict) else inp
         ctx = Ctx(col)
         check_url(ctx, url)
@@ -692,6 +711,7 @@ def main():
         "is in bounds.inputs_with_redirect_parameter_or_cache_marker"
         % (bounds["token_sequence_length"], len(bounds["token_alphabet"]), bounds["token_alphabet"], len(SHAPES), len(KEYS_ALL),
            len(LEAVES), len(CACHE_PREFIXES), bounds["random_inputs"], len(SOUP)))
+    deep_nesting(col)
     history.run(col, "C15", a.tier == "quick")
     col.dump(a.out)
 
